@@ -23,8 +23,21 @@ def Event.isBody : Event → Bool
 
 /-- the check for one event given the event before it -/
 def okStep (prev : Option Event) : Event → Bool
-  | .body _ _ c (some p) => prev == some (.permits c p true)
+  | .body t _ c (some p) => prev == some (.permits c p true) || prev == some (.deco t c (some p))
+  | .deco t c (some p) => prev == some (.permits c p true) || prev == some (.deco t c (some p))
   | _ => true
+
+/-- does the chain reach the permission check before any user decorator code? -/
+def securedFirst : List Layer → Bool
+  | [] => false
+  | .secured :: _ => true
+  | .decorated :: _ => false
+  | _ :: rest => securedFirst rest
+
+/-- the event standing before a guarded piece of user code of view `d` is its grant, or that view's decorator
+(which itself stands after the grant) -/
+def Armed (prev : Option Event) (d : DView) (ctx p : Nat) : Prop :=
+  prev = some (.permits ctx p true) ∨ prev = some (.deco d.tag ctx (some p))
 
 def okFrom (prev : Option Event) : List Event → Bool
   | [] => true
@@ -62,7 +75,15 @@ theorem okStep_of_none {prev : Option Event} {e : Event} (h : okStep none e = tr
     cases g with
     | none => rfl
     | some p => simp [okStep] at h
+  | deco t c g =>
+    cases g with
+    | none => rfl
+    | some p => simp [okStep] at h
   | _ => rfl
+
+theorem okStep_armed {prev : Option Event} {d : DView} {ctx p : Nat} (h : Armed prev d ctx p) :
+    okStep prev (.deco d.tag ctx (some p)) = true ∧ ∀ x, okStep prev (.body d.tag x ctx (some p)) = true := by
+  rcases h with h | h <;> subst h <;> simp [okStep]
 
 theorem okFrom_of_none {prev : Option Event} {l : List Event} (h : okFrom none l = true) : okFrom prev l = true := by
   cases l with
@@ -163,7 +184,7 @@ theorem Inv.weaken {views : List DView} {pol : Nat → Nat → Bool} {prev : Opt
 theorem runLayers_inv {views : List DView} {pol : Nat → Nat → Bool} {truePreds : List Nat} {ctx : Nat} {d : DView}
     (hd : d ∈ views) {wrap : Nat → Res} (hw : ∀ w, Inv views pol none (wrap w)) :
     ∀ (layers : List Layer) (prev : Option Event),
-      (∀ p, d.guard = some p → prev = some (.permits ctx p true) ∨ Layer.secured ∈ layers) →
+      (∀ p, d.guard = some p → Armed prev d ctx p ∨ securedFirst layers = true) →
       Inv views pol prev (runLayers wrap pol truePreds ctx d layers) := by
   intro layers
   induction layers with
@@ -176,8 +197,8 @@ theorem runLayers_inv {views : List DView} {pol : Nat → Nat → Bool} {truePre
       | none => rfl
       | some p =>
         rcases harm p hg with h | h
-        · simp [okStep, h]
-        · cases h
+        · exact (okStep_armed h).2 _
+        · simp [securedFirst] at h
     · simp [tight, Event.isRefusal]
     · simp [truthful, truthfulEv]
     · intro tag exc c g hm
@@ -193,7 +214,7 @@ theorem runLayers_inv {views : List DView} {pol : Nat → Nat → Bool} {truePre
     | predicated =>
       simp only [runLayers]
       split
-      · exact ih prev (fun p hp => (harm p hp).imp id (fun h => by simpa using h))
+      · exact ih prev (fun p hp => (harm p hp).imp id (fun h => by simpa [securedFirst] using h))
       · exact Inv.nil
     | secured =>
       simp only [runLayers]
@@ -203,7 +224,7 @@ theorem runLayers_inv {views : List DView} {pol : Nat → Nat → Bool} {truePre
         split
         · next hpol =>
           have hin := ih (some (.permits ctx p true)) (fun p' hp' => by
-            rw [hg] at hp'; injection hp' with hp'; subst hp'; exact Or.inl rfl)
+            rw [hg] at hp'; injection hp' with hp'; subst hp'; exact Or.inl (Or.inl rfl))
           refine ⟨?_, ?_, ?_, ?_, ?_⟩
           · simp only [okFrom, okStep, Bool.true_and]; exact hin.good
           · simp only [tight, Event.isRefusal]; exact hin.tgt
@@ -235,8 +256,8 @@ theorem runLayers_inv {views : List DView} {pol : Nat → Nat → Bool} {truePre
               exact ⟨d, hd, by rw [hg, h2]⟩
             · cases h
     | owrapped =>
-      have harm' : ∀ p, d.guard = some p → prev = some (.permits ctx p true) ∨ Layer.secured ∈ rest :=
-        fun p hp => (harm p hp).imp id (fun h => by simpa using h)
+      have harm' : ∀ p, d.guard = some p → Armed prev d ctx p ∨ securedFirst rest = true :=
+        fun p hp => (harm p hp).imp id (fun h => by simpa [securedFirst] using h)
       have hin := ih prev harm'
       simp only [runLayers]
       split
@@ -256,9 +277,36 @@ theorem runLayers_inv {views : List DView} {pol : Nat → Nat → Bool} {truePre
           | raised k => simpa [hw2] using h2
           | perm b => simpa [hw2] using h2
         · exact hin
+    | decorated =>
+      simp only [runLayers]
+      split
+      · -- the user's decorator code is entered here: it must already be armed
+        have harmed : ∀ p, d.guard = some p → Armed prev d ctx p :=
+          fun p hp => (harm p hp).resolve_right (by simp [securedFirst])
+        have hin := ih (some (.deco d.tag ctx d.guard)) (fun p hp => by
+          left; right; rw [hp])
+        refine ⟨?_, ?_, ?_, ?_, ?_⟩
+        · simp only [okFrom, Bool.and_eq_true]
+          refine ⟨?_, hin.good⟩
+          cases hg : d.guard with
+          | none => rfl
+          | some p => exact (okStep_armed (harmed p hg)).1
+        · simp only [tight, Event.isRefusal]; exact hin.tgt
+        · have := hin.tru
+          simp only [truthful, List.all_cons, truthfulEv, Bool.true_and] at this ⊢
+          exact this
+        · intro tag exc c g hm
+          rcases List.mem_cons.mp hm with h | h
+          · cases h
+          · exact hin.src tag exc c g h
+        · intro c p' a hm
+          rcases List.mem_cons.mp hm with h | h
+          · cases h
+          · exact hin.asked c p' a h
+      · exact ih prev (fun p hp => (harm p hp).imp id (fun h => by simp [securedFirst] at h))
     | other =>
       simp only [runLayers]
-      exact ih prev (fun p hp => (harm p hp).imp id (fun h => by simpa using h))
+      exact ih prev (fun p hp => (harm p hp).imp id (fun h => by simpa [securedFirst] using h))
 
 /-! ### the loops -/
 
@@ -354,7 +402,7 @@ theorem mem_findViews {views : List DView} {exc : Bool} {ifaces sro : List Nat} 
 
 /-! ### `_call_view` with `secure=True` -/
 
-theorem callView_inv {ch : List Layer} (hch : Layer.secured ∈ ch) {views : List DView} {w : World}
+theorem callView_inv {ch : List Layer} (hch : securedFirst ch = true) {views : List DView} {w : World}
     {wrapIfaces truePreds : List Nat} :
     ∀ (fuel : Nat) (exc : Bool) (ifaces sro : List Nat) (name ctx : Nat),
       Inv views w.pol none (callView ch views w wrapIfaces truePreds fuel exc ifaces sro name ctx true) := by
